@@ -206,7 +206,7 @@ func (c *CPU) formatInstructionModeTo(xb *xbuf.B, mode byte, w0 byte, w1 byte, w
 		xb.C('#').C('$').X02(w2).C(',').C('#').C('$').X02(w1).Sb(spaces[9:13])
 	case m_PC_Relative: // rel8        - p. 308 or 5.18 (BRA)
 		w216 := uint16(w1)
-		if w2 < 0x80 {
+		if w1 < 0x80 {
 			dest := c.PC + 2 + w216
 			//o = fmt.Appendf(o, "$%02x ($%04x +)", w216, dest)
 			xb.C('$').X02(w1).S(" ($").X04(dest).S(" +)").Sb(spaces[13:13])
